@@ -78,6 +78,7 @@ def ends : Req → Scope → Bool
   | .disconnect, _ => true
   | .activate _, _ => false
   | .rw _ _ _ _, _ => false          -- a `read` / `change` request ends nothing
+  | .malformed _ _, _ => false       -- nor does a request that is refused as malformed (e.g. `deactivate` with data)
 
 /-- does a reply to request `r` mark the end of what `r` ends: a positive reply does; for `*IDN?` and a disconnect
 any outcome does (the statement says "after an identification request, or a disconnect" — also when the
